@@ -6,6 +6,7 @@ import (
 	"sync"
 
 	"github.com/cloudwego/eino/callbacks"
+	"github.com/cloudwego/eino/components/tool"
 	"github.com/cloudwego/eino/schema"
 )
 
@@ -501,4 +502,104 @@ func VerifC10MultiPath() {
 			"a handler designated to several paths fires exactly once per start/end for each designated node and never for another: "+nm)
 	}
 	vassert(c10Count(evs, "h", "start", "G") == 0 && c10Count(evs, "h", "start", "SUB") == 0, "and not for the graphs")
+}
+
+// Two overlapping calls that share one callbacks option (its handler list built with append, so with spare capacity)
+// and add a handler of their own in a second option: each call's own handler hears exactly its own run.
+func VerifC10SharedOption() {
+	ctx := context.Background()
+	vcfg("delaybound", 1+vtier())
+	vcfg("race", 1)
+	var evs []c10Ev
+	g := NewGraph[map[string]any, map[string]any]()
+	_ = g.AddLambdaNode("a", InvokableLambda(func(ctx context.Context, in map[string]any) (map[string]any, error) {
+		vyield()
+		return in, nil
+	}), WithNodeName("A"))
+	_ = g.AddEdge(START, "a")
+	_ = g.AddEdge("a", END)
+	r, err := g.Compile(ctx, WithGraphName("G"))
+	vassert(err == nil, "graph compiles")
+	var hs []callbacks.Handler
+	for _, id := range []string{"s1", "s2", "s3"} {
+		hs = append(hs, &c10Rec{id: id, evs: &evs})
+	}
+	shared := WithCallbacks(hs...)
+	call := func(own string) error {
+		_, e := r.Invoke(ctx, map[string]any{"in": 1}, shared, WithCallbacks(&c10Rec{id: own, evs: &evs}))
+		return e
+	}
+	var e2 error
+	go func() { e2 = call("own2") }()
+	e1 := call("own1")
+	vquiesce()
+	vassert(e1 == nil && e2 == nil, "both calls succeed")
+	for _, own := range []string{"own1", "own2"} {
+		vassert(c10Count(evs, own, "start", "G") == 1 && c10Count(evs, own, "end", "G") == 1, "a call's own handler hears exactly one graph start and one graph end: its own")
+		vassert(c10Count(evs, own, "start", "A") == 1 && c10Count(evs, own, "end", "A") == 1, "and exactly one start and end of the node")
+	}
+	for _, id := range []string{"s1", "s2", "s3"} {
+		vassert(c10Count(evs, id, "start", "G") == 2 && c10Count(evs, id, "end", "G") == 2, "the shared handlers hear both runs")
+	}
+}
+
+type c10Tool struct{ name string }
+
+func (t *c10Tool) Info(ctx context.Context) (*schema.ToolInfo, error) {
+	return &schema.ToolInfo{Name: t.name}, nil
+}
+func (t *c10Tool) InvokableRun(ctx context.Context, args string, opts ...tool.Option) (string, error) {
+	return t.name + "(" + args + ")", nil
+}
+
+// Tool calls are execution units of their own: a handler registered globally and the same kind of handler passed per
+// call hear the same events — one start and one end per tool call, per node and per graph.
+func VerifC10ToolCalls() {
+	ctx := context.Background()
+	vcfg("fifo", 1)
+	vcfg("selectfirst", 1)
+	var evs []c10Ev
+	callbacks.InitCallbackHandlers([]callbacks.Handler{&c10Rec{id: "global", evs: &evs}})
+	tn, err := NewToolNode(ctx, &ToolsNodeConfig{Tools: []tool.BaseTool{&c10Tool{"t0"}, &c10Tool{"t1"}}})
+	vassert(err == nil, "tools node is created")
+	g := NewGraph[*schema.Message, []*schema.Message]()
+	_ = g.AddToolsNode("tools", tn, WithNodeName("TOOLS"))
+	_ = g.AddEdge(START, "tools")
+	_ = g.AddEdge("tools", END)
+	r, err := g.Compile(ctx, WithGraphName("G"))
+	vassert(err == nil, "graph compiles")
+	n := 1 + vchoose("calls", 3)
+	msg := &schema.Message{Role: schema.Assistant}
+	want := map[string]int{}
+	for i := 0; i < n; i++ {
+		name := []string{"t0", "t1"}[vchoose("tool", 2)]
+		msg.ToolCalls = append(msg.ToolCalls, schema.ToolCall{ID: []string{"c0", "c1", "c2"}[i], Function: schema.FunctionCall{Name: name, Arguments: "x"}})
+		want[name]++
+	}
+	opt := WithCallbacks(&c10Rec{id: "percall", evs: &evs})
+	var rerr error
+	if vchoose("stream", 2) == 1 {
+		sr, e := r.Stream(ctx, msg, opt)
+		rerr = e
+		if e == nil {
+			for i := 0; i < 8; i++ {
+				if _, e := sr.Recv(); e != nil {
+					break
+				}
+			}
+			sr.Close()
+		}
+	} else {
+		_, rerr = r.Invoke(ctx, msg, opt)
+	}
+	callbacks.InitCallbackHandlers(nil)
+	vquiesce()
+	vassert(rerr == nil, "run succeeds")
+	for _, h := range []string{"global", "percall"} {
+		for _, name := range []string{"t0", "t1"} {
+			vassert(c10Count(evs, h, "start", name) == want[name] && c10Count(evs, h, "end", name) == want[name], "handler "+h+": one start and one end per call of tool "+name)
+		}
+		vassert(c10Count(evs, h, "start", "TOOLS") == 1 && c10Count(evs, h, "end", "TOOLS") == 1, "handler "+h+": one start and one end for the tools node")
+		vassert(c10Count(evs, h, "start", "G") == 1 && c10Count(evs, h, "end", "G") == 1, "handler "+h+": one start and one end for the graph")
+	}
 }
